@@ -9,8 +9,9 @@ THEOREMS = ["d8_drdc_table", "ldd_drdc_table", "d8_convention", "ldd_convention"
             "nextxy_decode_spec", "nextxy_decode_wf",
             "pits_exact", "pits_sorted", "mask_excluded", "infer_sound", "gen_pit_indices_eq", "gen_d8_from_array_eq", "gen_ldd_from_array_eq", "gen_nextxy_from_array_eq"]
 RULE = ("exhaustive rasters over the legal code set on all shapes with <= 4 cells (quick) / <= 5 (thorough) for D8 "
-        "and LDD, exhaustive NEXTXY targets on <= 3 cells, random rasters to 8x8 through pyflwdir.from_array with "
-        "masks, explicit and inferred ftype, matching and mismatching dtypes; a case is non-trivial when the raster "
+        "and LDD (2x2 exhaustive, 1x4 / 4x1 sampled), NEXTXY targets on <= 3 cells (2 cells exhaustive, 3 cells sampled), random rasters "
+        "to 8x8 and, in about 6 % of the cases, with more than 256 cells (to 2x140) through pyflwdir.from_array with masks (for NEXTXY "
+        "also the documented 2-D mask and the (nextx, nexty) pair), explicit and inferred ftype, matching and mismatching dtypes; a case is non-trivial when the raster "
         "has at least one non-pit link or one nodata cell")
 ASSUMPTIONS = ["np.log2 on the legal power-of-two codes is exact (Z.log2 in the regenerated drdc)",
                "integer casts in drdc are the identity on the legal codes"]
